@@ -29,6 +29,9 @@ type pairRec struct {
 	Impl  []string        `json:"impl"`
 }
 
+// after this many fatal crashes / timeouts of the implementation a run stops generating (the evidence is in)
+const maxCrashes = 3
+
 const header = "From GS Require Import Base.Str Gen.GenDiffTables Tools.DiffTypes Tools.DiffSpec Tools.DiffModel Tools.DiffReport Tools.DiffRun.\n"
 
 // genPair produces one (A,B) pair with its description.
@@ -74,6 +77,11 @@ func cmdCorr(args []string) {
 	var recs []pairRec
 	bufs := make([][]string, *shards)
 	for i := 0; i < *n; i++ {
+		if pool.Crashes >= maxCrashes {
+			cov["stopped-early-after-crashes"]++
+			*n = i
+			break
+		}
 		g := &dspec.Gen{R: r.Fork(), Lenient: *lenient && i%4 == 3, Cov: cov}
 		a, b, kind, edits := genPair(g, i)
 		res := pool.Compare(a.JSON(), b.JSON())
